@@ -412,6 +412,122 @@ fn realmatch(req: &Value) -> Value {
     json!({"results": results})
 }
 
+// C28: exhaustive check of the ParseError helpers over small domains against an independent
+// re-statement of the documented behaviour.
+fn expected_suffix(exp: &[String]) -> String {
+    match exp.len() {
+        0 => String::new(),
+        1 => format!("\nExpected one of {}", exp[0]),
+        n => format!("\nExpected one of {} or {}", exp[..n - 1].join(", "), exp[n - 1]),
+    }
+}
+
+fn parseerr(_req: &Value) -> Value {
+    use lalrpop_util::ParseError as PE;
+    type E = PE<u32, String, String>;
+    let locs = [0u32, 1, 7];
+    let toks = ["a", "b"];
+    let errs = ["x", "y"];
+    let names = ["p", "q", "r", "s"];
+    let mut values: Vec<E> = vec![];
+    let mut exps: Vec<Vec<String>> = vec![];
+    for n in 0..=4 {
+        exps.push(names[..n].iter().map(|s| s.to_string()).collect());
+    }
+    for &l in &locs {
+        values.push(PE::InvalidToken { location: l });
+        for e in &exps {
+            values.push(PE::UnrecognizedEof { location: l, expected: e.clone() });
+        }
+        for &r in &locs {
+            for t in &toks {
+                values.push(PE::ExtraToken { token: (l, t.to_string(), r) });
+                for e in &exps {
+                    values.push(PE::UnrecognizedToken { token: (l, t.to_string(), r), expected: e.clone() });
+                }
+            }
+        }
+    }
+    for e in &errs {
+        values.push(PE::User { error: e.to_string() });
+    }
+    let mut viol: Vec<Value> = vec![];
+    let mut cases = 0usize;
+    let f = |x: u32| x * 10 + 3;
+    for v in &values {
+        // map_location: every location, both span ends, start then end; rest untouched
+        let calls = std::cell::RefCell::new(vec![]);
+        let got = v.clone().map_location(|x| {
+            calls.borrow_mut().push(x);
+            f(x) as u64
+        });
+        let (want, want_calls): (PE<u64, String, String>, Vec<u32>) = match v {
+            PE::InvalidToken { location } => (PE::InvalidToken { location: f(*location) as u64 }, vec![*location]),
+            PE::UnrecognizedEof { location, expected } => (PE::UnrecognizedEof { location: f(*location) as u64, expected: expected.clone() }, vec![*location]),
+            PE::UnrecognizedToken { token, expected } => (PE::UnrecognizedToken { token: (f(token.0) as u64, token.1.clone(), f(token.2) as u64), expected: expected.clone() }, vec![token.0, token.2]),
+            PE::ExtraToken { token } => (PE::ExtraToken { token: (f(token.0) as u64, token.1.clone(), f(token.2) as u64) }, vec![token.0, token.2]),
+            PE::User { error } => (PE::User { error: error.clone() }, vec![]),
+        };
+        cases += 1;
+        if got != want || *calls.borrow() != want_calls {
+            viol.push(json!({"op": "map_location", "value": format!("{:?}", v), "got": format!("{:?}", got), "want": format!("{:?}", want), "calls": format!("{:?}", calls.borrow()), "want_calls": format!("{:?}", want_calls)}));
+        }
+        // map_token
+        let n = std::cell::Cell::new(0);
+        let got = v.clone().map_token(|t| {
+            n.set(n.get() + 1);
+            format!("<{}>", t)
+        });
+        let (want, wn): (E, u32) = match v {
+            PE::UnrecognizedToken { token, expected } => (PE::UnrecognizedToken { token: (token.0, format!("<{}>", token.1), token.2), expected: expected.clone() }, 1),
+            PE::ExtraToken { token } => (PE::ExtraToken { token: (token.0, format!("<{}>", token.1), token.2) }, 1),
+            other => (other.clone(), 0),
+        };
+        cases += 1;
+        if got != want || n.get() != wn {
+            viol.push(json!({"op": "map_token", "value": format!("{:?}", v), "got": format!("{:?}", got), "want": format!("{:?}", want), "calls": n.get()}));
+        }
+        // map_error
+        let n = std::cell::Cell::new(0);
+        let got = v.clone().map_error(|e| {
+            n.set(n.get() + 1);
+            e.len() as u8
+        });
+        let (want, wn): (PE<u32, String, u8>, u32) = match v {
+            PE::InvalidToken { location } => (PE::InvalidToken { location: *location }, 0),
+            PE::UnrecognizedEof { location, expected } => (PE::UnrecognizedEof { location: *location, expected: expected.clone() }, 0),
+            PE::UnrecognizedToken { token, expected } => (PE::UnrecognizedToken { token: token.clone(), expected: expected.clone() }, 0),
+            PE::ExtraToken { token } => (PE::ExtraToken { token: token.clone() }, 0),
+            PE::User { error } => (PE::User { error: error.len() as u8 }, 1),
+        };
+        cases += 1;
+        if got != want || n.get() != wn {
+            viol.push(json!({"op": "map_error", "value": format!("{:?}", v), "got": format!("{:?}", got), "want": format!("{:?}", want)}));
+        }
+        // Display
+        let got = v.to_string();
+        let want = match v {
+            PE::User { error } => error.clone(),
+            PE::InvalidToken { location } => format!("Invalid token at {}", location),
+            PE::UnrecognizedEof { location, expected } => format!("Unrecognized EOF found at {}{}", location, expected_suffix(expected)),
+            PE::UnrecognizedToken { token, expected } => format!("Unrecognized token `{}` found at {}:{}{}", token.1, token.0, token.2, expected_suffix(expected)),
+            PE::ExtraToken { token } => format!("Extra token {} found at {}:{}", token.1, token.0, token.2),
+        };
+        cases += 1;
+        if got != want {
+            viol.push(json!({"op": "display", "value": format!("{:?}", v), "got": got, "want": want}));
+        }
+    }
+    for e in &errs {
+        let got: E = PE::from(e.to_string());
+        cases += 1;
+        if got != (PE::User { error: e.to_string() }) {
+            viol.push(json!({"op": "from", "got": format!("{:?}", got)}));
+        }
+    }
+    json!({"values": values.len(), "cases": cases, "violations": viol})
+}
+
 fn main() {
     let stdin = std::io::stdin();
     let stdout = std::io::stdout();
@@ -435,6 +551,7 @@ fn main() {
             "tokcmp" => tokcmp(&req),
             "tokens" => tokens(&req),
             "realmatch" => realmatch(&req),
+            "parseerr" => parseerr(&req),
             _ => json!({"error": "unknown op"}),
         });
         let r = r.unwrap_or_else(|_| json!({"error": "tool panicked"}));
